@@ -132,7 +132,9 @@ Record Sz (s : nstate) : Prop := {
   sz_cmi : idx_ok (N s) (CommitPayloads s);
   sz_pci : idx_ok (N s) (PreCommitPayloads s);
   (* C04: in a view above 0 the node holds M kept change-view requests for that view or above *)
-  sz_vi : 0 < ViewNumber s -> Mq s <= cnt_ge (ViewNumber s) (LastChangeViewPayloads s) }.
+  sz_vi : 0 < ViewNumber s -> Mq s <= cnt_ge (ViewNumber s) (LastChangeViewPayloads s);
+  (* the primary's slot holds a PrepareRequest if anything (onPrepareResponse type-asserts it) *)
+  sz_k4 : forall q, nth_chk (PreparationPayloads s) (Z.to_nat (PrimaryIndex s)) = Some (Some q) -> p_type q = PrepareRequestT }.
 
 Lemma zlen_set {T} (l l' : list T) i v : set_chk l i v = Some l' -> zlen l' = zlen l.
 Proof. intros H. unfold zlen. erewrite set_chk_length; eauto. Qed.
@@ -224,7 +226,7 @@ Qed.
 (* Sz after a record update that leaves the sized components alone *)
 Ltac sz_keep H :=
   let H0 := fresh "H0" in
-  destruct H as [H0 ? ? ? ? ? ? ? ? ? ? ? ? ?]; destruct H0; constructor; [constructor|..];
+  destruct H as [H0 ? ? ? ? ? ? ? ? ? ? ? ? ? ?]; destruct H0; constructor; [constructor|..];
   unfold Mq, F, N, primary_of, idx_ok in *; cbn in *; try assumption.
 Ltac kk := unfold K; cbn; repeat split; reflexivity.
 
@@ -343,7 +345,7 @@ Proof.
   pose proof (zlen_set _ _ _ _ Hl) as Hz.
   assert (Hr : 0 <= gorem (rtt_idx s0 + 1) rttLength < rttLength).
   { destruct H as [[_ _ _ Hi]]. unfold gorem, rttLength in *. pose proof (Z.rem_bound_pos (rtt_idx s0 + 1) 70 ltac:(lia) ltac:(lia)). lia. }
-  destruct H as [H0 ? ? ? ? ? ? ? ? ? ? ? ? ?]; destruct H0; constructor; [constructor|..]; unfold Mq, F, N, primary_of, idx_ok in *; cbn in *; try assumption; try lia.
+  destruct H as [H0 ? ? ? ? ? ? ? ? ? ? ? ? ? ?]; destruct H0; constructor; [constructor|..]; unfold Mq, F, N, primary_of, idx_ok in *; cbn in *; try assumption; try lia.
 Qed.
 Hint Resolve np_rtt : npdb.
 Lemma np_broadcast m : NP (broadcast m). Proof. unfold broadcast. np_go. Qed.
@@ -386,13 +388,13 @@ Proof.
     ntset. { rewrite (sz_cm _ S1), (K_N _ _ K1), <- (sz_cm _ Hs). exact Hi. }
     apply n_modify_last. split; [|eapply K_trans; [exact Hk|]; eapply K_trans; [exact K1|kk]].
     pose proof (zlen_set _ _ _ _ Hl) as Hz. assert (Hok : idx_ok (N s1) l) by (eapply idx_ok_set; [exact (sz_cmi _ S1)| |exact Hl]; intros ? [=]).
-    destruct S1 as [H0' ? ? ? ? ? ? ? ? ? ? ? ? ?]; destruct H0'; constructor; [constructor|..]; unfold Mq, F, N, primary_of, idx_ok in *; cbn in *; try assumption; try lia. }
+    destruct S1 as [H0' ? ? ? ? ? ? ? ? ? ? ? ? ? ?]; destruct H0'; constructor; [constructor|..]; unfold Mq, F, N, primary_of, idx_ok in *; cbn in *; try assumption; try lia. }
   cbn. intros _ s n H. exact H.
 Qed.
 Hint Resolve np_verifyCommits : npdb.
 
 Ltac sz_split S := let H0' := fresh "H0" in
-  destruct S as [H0' ? ? ? ? ? ? ? ? ? ? ? ? ?]; destruct H0'; constructor; [constructor|..]; unfold Mq, F, N, primary_of, idx_ok in *; cbn in *; try assumption; try lia.
+  destruct S as [H0' ? ? ? ? ? ? ? ? ? ? ? ? ? ?]; destruct H0'; constructor; [constructor|..]; unfold Mq, F, N, primary_of, idx_ok in *; cbn in *; try assumption; try lia.
 
 Lemma np_verifyPreCommits : NP verifyPreCommitPayloadsAgainstPreBlock.
 Proof.
@@ -419,13 +421,20 @@ Proof.
 Qed.
 Hint Resolve np_verifyPreCommits : npdb.
 
+Lemma nth_chk_map' {S T} (f : S -> T) l i : nth_chk (map f l) i = option_map f (nth_chk l i).
+Proof. revert i; induction l as [|y t IH]; intros i; destruct i; cbn; auto. Qed.
 Lemma np_updateExistingPayloads m : NP (updateExistingPayloads cfg m).
 Proof.
   unfold updateExistingPayloads. apply NP_bind; [|intros _; np_go].
-  apply NP_modify. intros s H. split; [|kk]. pose proof (zlen_map (fun o : option payload => match o with
+  apply NP_modify. intros s H. split; [|kk].
+  set (f := fun o : option payload => match o with
                    | Some m0 => if mtype_eqb (p_type m0) PrepareResponseT && negb (hash_eqb (resp_prephash m0) (payload_hash m))
                                then None else Some m0
-                   | None => None end) (PreparationPayloads s)) as Hz.
+                   | None => None end).
+  pose proof (zlen_map f (PreparationPayloads s)) as Hz.
+  assert (Hk : forall q, nth_chk (map f (PreparationPayloads s)) (Z.to_nat (PrimaryIndex s)) = Some (Some q) -> p_type q = PrepareRequestT).
+  { intros q Hq. rewrite nth_chk_map' in Hq. destruct (nth_chk (PreparationPayloads s) (Z.to_nat (PrimaryIndex s))) as [[q0|]|] eqn:E; cbn in Hq; try discriminate.
+    unfold f in Hq. destruct (_ && _); [discriminate|]. injection Hq as <-. apply (sz_k4 _ H _ E). }
   sz_split H.
 Qed.
 Hint Resolve np_updateExistingPayloads : npdb.
@@ -444,16 +453,30 @@ Proof.
 Qed.
 
 Definition has_req (s : nstate) : Prop := exists q, nth_chk (PreparationPayloads s) (Z.to_nat (PrimaryIndex s)) = Some (Some q).
-Lemma np_makePrepareResponse s0 : Sz s0 -> 0 <= MyIndex s0 -> has_req s0 -> nx s0 makePrepareResponse (fun _ s _ => Sz s /\ K s0 s).
+Lemma k4_set_other s l i v : (forall q, nth_chk (PreparationPayloads s) (Z.to_nat (PrimaryIndex s)) = Some (Some q) -> p_type q = PrepareRequestT) ->
+  set_chk (PreparationPayloads s) (Z.to_nat i) v = Some l -> 0 <= i -> 0 <= PrimaryIndex s -> i <> PrimaryIndex s ->
+  forall q, nth_chk l (Z.to_nat (PrimaryIndex s)) = Some (Some q) -> p_type q = PrepareRequestT.
+Proof. intros Hk Hl Hi Hp Hne q Hq. rewrite (nth_set_other _ _ _ _ _ Hl) in Hq by lia. apply Hk, Hq. Qed.
+Lemma k4_set_req s l i m : (forall q, nth_chk (PreparationPayloads s) (Z.to_nat (PrimaryIndex s)) = Some (Some q) -> p_type q = PrepareRequestT) ->
+  set_chk (PreparationPayloads s) (Z.to_nat i) (Some m) = Some l -> p_type m = PrepareRequestT ->
+  forall q, nth_chk l (Z.to_nat (PrimaryIndex s)) = Some (Some q) -> p_type q = PrepareRequestT.
 Proof.
-  intros H Hm [q Hq]. unfold makePrepareResponse. apply n_get. ntget. { pose proof (sz_pi _ H). rewrite (sz_prep _ H). lia. }
+  intros Hk Hl Ty q Hq. destruct (Nat.eq_dec (Z.to_nat i) (Z.to_nat (PrimaryIndex s))) as [E|E].
+  - rewrite <- E, (nth_set_same _ _ _ _ Hl) in Hq. injection Hq as <-. exact Ty.
+  - rewrite (nth_set_other _ _ _ _ _ Hl) in Hq by exact E. apply Hk, Hq.
+Qed.
+
+Lemma np_makePrepareResponse s0 : Sz s0 -> 0 <= MyIndex s0 -> MyIndex s0 <> PrimaryIndex s0 -> has_req s0 -> nx s0 makePrepareResponse (fun _ s _ => Sz s /\ K s0 s).
+Proof.
+  intros H Hm Hne [q Hq]. unfold makePrepareResponse. apply n_get. ntget. { pose proof (sz_pi _ H). rewrite (sz_prep _ H). lia. }
   rewrite Hq in Hx. injection Hx as <-. cbv zeta.
   ntset. { rewrite (sz_prep _ H). pose proof (sz_my _ H). lia. }
-  apply n_modify. apply n_ret. split; [|kk]. pose proof (zlen_set _ _ _ _ Hl) as Hz. sz_split H.
+  apply n_modify. apply n_ret. split; [|kk]. pose proof (zlen_set _ _ _ _ Hl) as Hz.
+  pose proof (k4_set_other s0 l _ _ (sz_k4 _ H) Hl Hm (proj1 (sz_pi _ H)) Hne) as Hk. sz_split H.
 Qed.
-Lemma np_sendPrepareResponse s0 : Sz s0 -> 0 <= MyIndex s0 -> has_req s0 -> nx s0 sendPrepareResponse (fun _ s _ => Sz s /\ K s0 s).
+Lemma np_sendPrepareResponse s0 : Sz s0 -> 0 <= MyIndex s0 -> MyIndex s0 <> PrimaryIndex s0 -> has_req s0 -> nx s0 sendPrepareResponse (fun _ s _ => Sz s /\ K s0 s).
 Proof.
-  intros H Hm Hq. unfold sendPrepareResponse. eapply n_call; [apply (np_makePrepareResponse s0 H Hm Hq)|]. intros m s1 n1 [S1 K1].
+  intros H Hm Hne Hq. unfold sendPrepareResponse. eapply n_call; [apply (np_makePrepareResponse s0 H Hm Hne Hq)|]. intros m s1 n1 [S1 K1].
   eapply n_np; [apply np_StopTxFlow|exact S1|]. intros [] s2 n2 S2 K2.
   eapply n_np_last; [apply np_broadcast|exact S2|]. intros [] s3 n3 S3 K3. split; [exact S3|]. eauto using K_trans.
 Qed.
@@ -556,16 +579,21 @@ Qed.
 Lemma np_sendPrepareRequest force : NPi (sendPrepareRequest cfg force).
 Proof.
   intros s0 H Hm. unfold sendPrepareRequest.
-  eapply n_np; [apply np_makePrepareRequest|exact H|]. intros m1 s1 n1 S1 K1.
-  eapply n_call with (Qx := fun _ s _ => Sz s /\ K s0 s).
-  { destruct m1; [apply n_ret; fin S1|]. eapply n_np; [apply np_subscribe|exact S1|]. intros [] s2 n2 S2 K2.
-    eapply n_np_last; [apply np_makePrepareRequest|exact S2|]. intros m s3 n3 S3 K3. fin S3. }
-  intros m2 s2 n2 [S2 K2]. destruct m2 as [msg|].
-  - eapply n_np; [apply np_unsubscribe|exact S2|]. intros [] s3 n3 S3 K3. apply n_get.
+  assert (Hmk : forall s, Sz s -> nx s (makePrepareRequest cfg force) (fun r s' _ => (Sz s' /\ K s s') /\ forall m, r = Some m -> p_type m = PrepareRequestT)).
+  { intros s Ss. eapply n_conseq; [apply n_conj; [apply (np_makePrepareRequest force s Ss)|apply (t_makePrepareRequest cfg force s)]|].
+    cbn. intros r s' n [A (_ & _ & B & _)]. split; [exact A|]. intros m Hm'. destruct (B m Hm') as [-> _]. reflexivity. }
+  eapply n_call; [apply (Hmk s0 H)|]. intros m1 s1 n1 [[S1 K1] Ty1].
+  eapply n_call with (Qx := fun r s _ => (Sz s /\ K s0 s) /\ forall m, r = Some m -> p_type m = PrepareRequestT).
+  { destruct m1; [apply n_ret; split; [fin S1|exact Ty1]|]. eapply n_np; [apply np_subscribe|exact S1|]. intros [] s2 n2 S2 K2.
+    eapply n_conseq; [apply (Hmk s2 S2)|]. cbn. intros m s3 n3 [[S3 K3] Ty3]. split; [fin S3|exact Ty3]. }
+  intros m2 s2 n2 [[S2 K2] Ty2]. destruct m2 as [msg|].
+  - specialize (Ty2 msg eq_refl).
+    eapply n_np; [apply np_unsubscribe|exact S2|]. intros [] s3 n3 S3 K3. apply n_get.
     assert (Hm3 : 0 <= MyIndex s3) by (rewrite (K_my _ _ K3), (K_my _ _ K2); exact Hm).
     ntset. { rewrite (sz_prep _ S3). pose proof (sz_my _ S3). lia. }
     apply n_modify.
-    assert (S4 : Sz (s3 <| PreparationPayloads := l |>)) by (pose proof (zlen_set _ _ _ _ Hl) as Hz; sz_split S3).
+    assert (S4 : Sz (s3 <| PreparationPayloads := l |>)).
+    { pose proof (zlen_set _ _ _ _ Hl) as Hz. pose proof (k4_set_req s3 l _ msg (sz_k4 _ S3) Hl Ty2) as Hk. sz_split S3. }
     assert (K4 : K s3 (s3 <| PreparationPayloads := l |>)) by kk.
     eapply n_np; [apply np_broadcast|exact S4|]. intros [] s5 n5 S5 K5.
     eapply n_np; [apply np_updateExistingPayloads|exact S5|]. intros [] s6 n6 S6 K6.
@@ -664,10 +692,10 @@ Lemma has_req_keep a b : has_req a -> PreparationPayloads b = PreparationPayload
 Proof. intros [q Hq] E1 E2. exists q. rewrite E1, E2. exact Hq. Qed.
 
 (* the tail shared by addTransaction and onPrepareRequest: respond and look for a preparation quorum *)
-Lemma n_respond s0 : Sz s0 -> 0 <= MyIndex s0 -> has_req s0 ->
+Lemma n_respond s0 : Sz s0 -> 0 <= MyIndex s0 -> MyIndex s0 <> PrimaryIndex s0 -> has_req s0 ->
   nx s0 (sendPrepareResponse ;;; checkPrepare cfg) (fun _ s _ => Sz s).
 Proof.
-  intros H Hm Hq. eapply n_call; [apply (np_sendPrepareResponse s0 H Hm Hq)|]. intros [] s1 n1 [S1 K1].
+  intros H Hm Hne Hq. eapply n_call; [apply (np_sendPrepareResponse s0 H Hm Hne Hq)|]. intros [] s1 n1 [S1 K1].
   eapply n_npi_last; [apply np_checkPrepare|exact S1|rewrite (K_my _ _ K1); exact Hm|]. intros [] s2 n2 S2 _. exact S2.
 Qed.
 
@@ -676,13 +704,15 @@ Proof.
   intros H Hq. unfold addTransaction. apply n_modify. apply n_get.
   set (s1 := s0 <| Transactions := tx_put (Transactions s0) (tx_hash t) t |>).
   assert (S1 : Sz s1) by (unfold s1; sz_keep H). assert (Q1 : has_req s1) by (destruct Hq as [q Hq]; exists q; exact Hq).
-  destruct (negb _); [apply n_ret; exact S1|]. destruct (IsPrimary s1); [apply n_ret; exact S1|].
+  destruct (negb _); [apply n_ret; exact S1|]. destruct (IsPrimary s1) eqn:Ep1; [apply n_ret; exact S1|].
+  assert (Hne1 : MyIndex s1 <> PrimaryIndex s1) by (unfold IsPrimary in Ep1; apply Z.eqb_neq in Ep1; exact Ep1).
   eapply n_call; [apply n_WatchOnly|]. intros wo s2 n2 [-> Hw]. destruct wo; [apply n_ret; exact S1|]. specialize (Hw eq_refl).
   eapply n_call; [apply (nq_createAndCheckBlock s1 S1)|]. intros ok s3 n3 (S3 & Hok). destruct ok; cbn [negb]; [|apply n_ret; exact S3].
   destruct (Hok eq_refl) as [K3 P3].
   eapply n_call; [apply n_conj; [apply (np_verifyPreCommits s3 S3)|apply (vpc_prep s3)]|]. intros [] s4 n4 ((S4 & K4) & P4).
   eapply n_call; [apply n_conj; [apply (np_extendTimer 2 s4 S4)|apply (f_extendTimer cfg 2 s4)]|]. intros [] s5 n5 ((S5 & K5) & (R5 & _)).
-  apply n_respond; [exact S5|rewrite (K_my _ _ K5), (K_my _ _ K4), (K_my _ _ K3); exact Hw|].
+  apply n_respond; [exact S5|rewrite (K_my _ _ K5), (K_my _ _ K4), (K_my _ _ K3); exact Hw| |].
+  { rewrite (K_my _ _ K5), (K_my _ _ K4), (K_my _ _ K3), (K_pi _ _ K5), (K_pi _ _ K4), (K_pi _ _ K3). exact Hne1. }
   eapply has_req_keep; [exact Q1|..].
   - assert (E5 : PreparationPayloads s5 = PreparationPayloads s4) by apply R5. congruence.
   - rewrite (K_pi _ _ K5), (K_pi _ _ K4), (K_pi _ _ K3). reflexivity.
@@ -716,7 +746,8 @@ Proof.
   apply n_get. ntset. { rewrite (sz_prep _ S5), (K_N _ _ K05). exact Hi. }
   apply n_modify. apply n_get.
   match goal with |- nx ?st _ _ => set (s6 := st) end.
-  assert (S6 : Sz s6) by (unfold s6; pose proof (zlen_set _ _ _ _ Hl) as Hz; sz_split S5).
+  assert (Tym : p_type msg = PrepareRequestT) by (unfold p_type; rewrite Eb; reflexivity).
+  assert (S6 : Sz s6) by (unfold s6; pose proof (zlen_set _ _ _ _ Hl) as Hz; pose proof (k4_set_req s5 l _ msg (sz_k4 _ S5) Hl Tym) as Hk; sz_split S5).
   assert (K6 : K s0 s6) by (eapply K_trans; [exact K05|unfold s6; kk]).
   assert (Q6 : has_req s6).
   { exists msg. unfold s6. cbn [PreparationPayloads PrimaryIndex set]. rewrite (K_pi _ _ K05), <- Ep. eapply nth_set_same; exact Hl. }
@@ -724,13 +755,17 @@ Proof.
   eapply n_call; [apply (nq_createAndCheckBlock s6 S6)|]. intros ok s7 n7 (S7 & Hok). destruct ok; cbn [negb]; [|apply n_ret; exact S7].
   destruct (Hok eq_refl) as [K7 P7].
   eapply n_call; [apply n_WatchOnly|]. intros wo s8 n8 [-> Hw]. destruct wo; [apply n_ret; exact S7|]. specialize (Hw eq_refl).
-  apply n_respond; [exact S7|exact Hw|]. eapply has_req_keep; [exact Q6|exact P7|apply (K_pi _ _ K7)].
+  apply n_get. destruct (IsPrimary s7) eqn:Ep7.
+  - apply n_ret_bind. eapply n_npi_last; [apply np_checkPrepare|exact S7|exact Hw|]. intros [] s9 n9 S9 _. exact S9.
+  - apply n_respond; [exact S7|exact Hw|unfold IsPrimary in Ep7; apply Z.eqb_neq in Ep7; exact Ep7|].
+    eapply has_req_keep; [exact Q6|exact P7|apply (K_pi _ _ K7)].
 Qed.
 
 Lemma nq_onPrepareResponse msg s0 : Sz s0 -> 0 <= p_idx msg < N s0 -> nx s0 (onPrepareResponse cfg msg) (fun _ s _ => Sz s).
 Proof.
   intros H Hi. unfold onPrepareResponse. apply n_get. destruct (negb _); [apply n_ret; exact H|].
-  rewrite (GetPrimaryIndex_eq _ _ (sz_n _ H)). apply n_ret_bind. destruct (p_idx msg =? _); [apply n_ret; exact H|].
+  rewrite (GetPrimaryIndex_eq _ _ (sz_n _ H)). apply n_ret_bind. destruct (p_idx msg =? _) eqn:Epi; [apply n_ret; exact H|].
+  apply Z.eqb_neq in Epi. rewrite <- (sz_pf _ H) in Epi.
   ntget. { rewrite (sz_prep _ H). exact Hi. }
   eapply n_call with (Qx := fun _ s _ => Sz s /\ K s0 s).
   { destruct (isSome x); [apply n_ret; fin H|]. eapply n_np; [apply np_ViewChanging|exact H|]. intros vc s1 n1 S1 K1. apply n_get. apply n_ret. fin S1. }
@@ -740,15 +775,24 @@ Proof.
   apply n_get. ntset. { rewrite (sz_prep _ S1), (K_N _ _ K1). exact Hi. }
   apply n_modify. apply n_get.
   match goal with |- nx ?st _ _ => set (s2 := st) end.
-  assert (S2 : Sz s2) by (unfold s2; pose proof (zlen_set _ _ _ _ Hl) as Hz; sz_split S1).
+  assert (Epi1 : p_idx msg <> PrimaryIndex s1) by (rewrite (K_pi _ _ K1); exact Epi).
+  assert (S2 : Sz s2).
+  { unfold s2. pose proof (zlen_set _ _ _ _ Hl) as Hz.
+    pose proof (k4_set_other s1 l _ _ (sz_k4 _ S1) Hl (proj1 Hi) (proj1 (sz_pi _ S1)) Epi1) as Hk. sz_split S1. }
   assert (K2 : K s0 s2) by (eapply K_trans; [exact K1|unfold s2; kk]).
   pose proof (primary_of_range s0 (ViewNumber s0) (sz_n _ H)) as Hpr.
   ntget. { rewrite (sz_prep _ S2), (K_N _ _ K2). exact Hpr. }
+  assert (Hreq : forall r, x0 = Some r -> p_type r = PrepareRequestT).
+  { intros r ->. apply (sz_k4 _ S2). rewrite (K_pi _ _ K2), (sz_pf _ H). exact Hx0. }
   eapply n_call with (Qx := fun _ s _ => Sz s /\ K s0 s).
-  { destruct x0 as [r|]; [|apply n_ret; fin S2]. destruct (p_body r) as [[]|]; try (apply n_ret; fin S2).
+  { destruct x0 as [r|]; [|apply n_ret; fin S2]. specialize (Hreq r eq_refl). unfold p_type in Hreq.
+    destruct (p_body r) as [[]|]; try discriminate Hreq.
     destruct (negb _); [|apply n_ret; fin S2].
     ntset. { rewrite (sz_prep _ S2), (K_N _ _ K2). exact Hi. }
-    apply n_modify. apply n_ret. split; [pose proof (zlen_set _ _ _ _ Hl0) as Hz; sz_split S2|eapply K_trans; [exact K2|kk]]. }
+    apply n_modify. apply n_ret. split; [|eapply K_trans; [exact K2|kk]].
+    pose proof (zlen_set _ _ _ _ Hl0) as Hz.
+    assert (Epi2 : p_idx msg <> PrimaryIndex s2) by (rewrite (K_pi _ _ K2); exact Epi).
+    pose proof (k4_set_other s2 l0 _ _ (sz_k4 _ S2) Hl0 (proj1 Hi) (proj1 (sz_pi _ S2)) Epi2) as Hk. sz_split S2. }
   intros mism s3 n3 [S3 K3]. destruct mism; [apply n_ret; exact S3|]. apply n_get.
   eapply n_call with (Qx := fun _ s _ => Sz s /\ K s0 s).
   { destruct (_ && _); [|apply n_ret; fin S3]. unfold ask_now. apply n_ask. intros t c2 Hc2.
@@ -878,7 +922,7 @@ Proof.
      | _ => ib end)).
   { apply (Forall_assoc_put wf_inbox); [exact (sz_cache _ (sz_0 _ H))|]. destruct Hib as (W1 & W2 & W3 & W4).
     destruct (p_type m); unfold wf_inbox; cbn; repeat split; auto; apply (Forall_assoc_put wfp); auto. }
-  destruct H as [H0 ? ? ? ? ? ? ? ? ? ? ? ? ?]; destruct H0; constructor; [constructor|..]; unfold Mq, F, N, primary_of, idx_ok in *; cbn in *; try assumption.
+  destruct H as [H0 ? ? ? ? ? ? ? ? ? ? ? ? ? ?]; destruct H0; constructor; [constructor|..]; unfold Mq, F, N, primary_of, idx_ok in *; cbn in *; try assumption.
 Qed.
 
 Lemma nq_receive_common (d : payload -> M unit) msg s0 : Sz s0 -> wfp msg ->
@@ -1040,7 +1084,7 @@ Proof.
     { apply n_conj; [apply n_keep; [lia|exact L1]|apply keep_spec]. }
     intros l s1 n1 [[-> Hl] [_ Hk]]. apply n_modify_last.
     assert (El : l = keepf view (ChangeViewPayloads s0)) by (apply Hk; [exact L1|intros j Hj; lia|exact L2]).
-    destruct P1s as [Q0 ? ? ? ? ? ? ? ? ? ? ? ? ?]. destruct Q0. constructor; [constructor|..]; unfold N, zlen, idx_ok in *; cbn; try assumption; try lia.
+    destruct P1s as [Q0 ? ? ? ? ? ? ? ? ? ? ? ? ? ?]. destruct Q0. constructor; [constructor|..]; unfold N, zlen, idx_ok in *; cbn; try assumption; try lia.
     + intros _. split; [assumption|split; [assumption|split; assumption]].
     + intros Hv. rewrite El, cnt_keepf. apply (P1q Hv).
 Qed.
@@ -1098,7 +1142,9 @@ Proof.
   assert (S4 : Sz s4).
   { destruct M2 as [Q0 ? ? ? Hk Hvi]. destruct Q0. destruct T2 as [A B C D].
     unfold s4, s3, Mq, F, N, empty_tbl, idx_ok, primary_of in *. cbn in *.
-    constructor; [constructor|..]; unfold Mq, F, N, idx_ok, primary_of; cbn; try assumption; try lia. reflexivity. }
+    constructor; [constructor|..]; unfold Mq, F, N, idx_ok, primary_of; cbn; try assumption; try lia.
+    - reflexivity.
+    - intros q Hq. unfold replicate in Hq. apply nth_chk_repeat in Hq. discriminate Hq. }
   destruct (MyIndex s4 >=? 0) eqn:Em.
   - rewrite Z.geb_leb in Em. apply Z.leb_le in Em.
     ntset. { rewrite (sz_ls _ S4). pose proof (sz_my _ S4). lia. }
@@ -1121,7 +1167,7 @@ Proof.
   match goal with |- nx ?st _ _ => set (s4 := st) end.
   assert (S4 : Sz s4).
   { pose proof (cache_wf_filter (cache s3) (fun kv => negb (fst kv <? BlockIndex s3)) (sz_cache _ (sz_0 _ S3))) as Hf. unfold s4.
-    destruct S3 as [Q0 ? ? ? ? ? ? ? ? ? ? ? ? ?]; destruct Q0; constructor; [constructor|..]; unfold Mq, F, N, primary_of, idx_ok in *; cbn in *; try assumption. }
+    destruct S3 as [Q0 ? ? ? ? ? ? ? ? ? ? ? ? ? ?]; destruct Q0; constructor; [constructor|..]; unfold Mq, F, N, primary_of, idx_ok in *; cbn in *; try assumption. }
   eapply n_call with (Qx := fun _ s _ => Sz s).
   { destruct (assoc_get (cache s4) (BlockIndex s4)) as [ib|] eqn:Eib; [|apply n_ret; exact S4].
     pose proof (Forall_assoc_get wf_inbox _ _ _ (sz_cache _ (sz_0 _ S4)) Eib) as (W1 & W2 & W3 & W4).
@@ -1129,7 +1175,7 @@ Proof.
     match goal with |- nx ?st _ _ => set (s5 := st) end.
     assert (S5 : Sz s5).
     { pose proof (Forall_assoc_del wf_inbox (cache s4) (BlockIndex s4) (sz_cache _ (sz_0 _ S4))) as Hd. unfold s5.
-      destruct S4 as [Q0 ? ? ? ? ? ? ? ? ? ? ? ? ?]; destruct Q0; constructor; [constructor|..]; unfold Mq, F, N, primary_of, idx_ok in *; cbn in *; try assumption. }
+      destruct S4 as [Q0 ? ? ? ? ? ? ? ? ? ? ? ? ? ?]; destruct Q0; constructor; [constructor|..]; unfold Mq, F, N, primary_of, idx_ok in *; cbn in *; try assumption. }
     eapply n_nq; [apply (nq_replay_map ic Hic _ _ W1)|exact S5|]. intros [] s6 n6 S6.
     eapply n_nq; [apply (nq_replay_map ic Hic _ _ W2)|exact S6|]. intros [] s7 n7 S7.
     eapply n_nq; [apply (nq_replay_map ic Hic _ _ W3)|exact S7|]. intros [] s8 n8 S8.
